@@ -67,6 +67,8 @@ def routes(cname, M):
         # the same rotation held as -q (negative scalar part), as products and turns beyond pi produce it
         Um = sm.UnitQuaternion(-q, norm=False, check=False)
         out = [('SO3.mul', lambda p: X * p), ('UnitQuaternion.mul', lambda p: U * p), ('UnitQuaternion(-q).mul', lambda p: Um * p)]
+        # the route a user takes: the library's own conversion of the matrix / the SO3 object, then the quaternion action
+        out += [('UnitQuaternion(R).mul', lambda p: sm.UnitQuaternion(M.copy()) * p), ('UnitQuaternion(SO3).mul', lambda p: sm.UnitQuaternion(X) * p)]
     elif cname == 'SE3':
         X = sm.SE3(M.copy())
         # the dual quaternion is built from the reference quaternion (real = q, dual = t q / 2) so that the
@@ -74,7 +76,8 @@ def routes(cname, M):
         q = ref.r2q_ref(M[:3, :3])
         D = sm.UnitDualQuaternion(sm.UnitQuaternion(q), sm.Quaternion(0.5 * ref.qmul(np.r_[0.0, M[:3, 3]], q)))
         out = [('SE3.mul', lambda p: X * p), ('base.homtrans', lambda p: b.homtrans(M.copy(), p)),
-               ('base.h2e.e2h', lambda p: b.h2e(M @ b.e2h(p))), ('UnitDualQuaternion.mul', lambda p: D * p)]
+               ('base.h2e.e2h', lambda p: b.h2e(M @ b.e2h(p))), ('UnitDualQuaternion.mul', lambda p: D * p),
+               ('UnitDualQuaternion(SE3).mul', lambda p: sm.UnitDualQuaternion(X) * p)]
     elif cname == 'SO2':
         X = sm.SO2(M.copy())
         out = [('SO2.mul', lambda p: X * p)]
@@ -99,7 +102,7 @@ def accepts(site, fname):
         return fname in ('1d', 'col', 'list', 'tuple') or fname.startswith('N=')
     if site == 'base.homtrans':
         return fname in ('1d', 'col', 'list', 'tuple') or fname.startswith('N=')
-    if site == 'UnitDualQuaternion.mul':
+    if site in ('UnitDualQuaternion.mul', 'UnitDualQuaternion(SE3).mul'):
         return fname in ('1d', 'list', 'tuple', 'row', 'col')
     return True
 
@@ -126,6 +129,15 @@ def check_value(ctx, cid, site, P, got, want, sc, shape=None):
     d = float(np.abs(g - w).max()) if g.size else 0.0
     if d > TOL * sc:
         ctx.fail(cid, site, 'mismatch', dict(P, what='value'), 'differs from R p + t by %.3g (tol %.3g)' % (d, TOL * sc))
+
+
+CONVERTED = ('UnitQuaternion(R).mul', 'UnitQuaternion(SO3).mul', 'UnitDualQuaternion(SE3).mul')
+
+
+def conv_slack(rname, gn):
+    """routes through the library's matrix -> quaternion conversion: within a micro-radian of a half turn the conversion itself is only
+    good to ~1e-8 (square root of a rounding error; decided to 1e-6 under C04), everywhere else the 1e-9 of this property applies"""
+    return 1e3 if rname in CONVERTED and any(k in gn for k in alph.SPECIAL) else 1.0
 
 
 def single_points(ctx, cname, k, K):
@@ -156,7 +168,7 @@ def single_points(ctx, cname, k, K):
                     if not ok:
                         ctx.fail(cid, site, 'raises:' + type(r).__name__, Pm, '%r' % (r,))
                         continue
-                    check_value(ctx, cid, site, Pm, r, want, sc)
+                    check_value(ctx, cid, site, Pm, r, want, sc * conv_slack(rname, gn))
                     ctx.cell(site, fname)
         # d x N arrays
         for N in range(1, 8):
@@ -166,8 +178,9 @@ def single_points(ctx, cname, k, K):
             sc = scale(M, A)
             for rname, f in R:
                 site = rname.replace('(-q)', '')
-                if site == 'UnitDualQuaternion.mul':
+                if site in ('UnitDualQuaternion.mul', 'UnitDualQuaternion(SE3).mul'):
                     continue
+                sc = scale(M, A) * conv_slack(rname, gn)
                 cid = 'C06/%s/%s/N=%d/%s' % (cname, gn, N, rname)
                 if not ctx.want(cid):
                     continue
